@@ -21,7 +21,7 @@ CHECKS = {
 CHECKS["C03"] = dict(
     pkg="c03", race=True, level="exploration", timeout_quick=600, timeout_thorough=3600,
     technique="bounded-exhaustive enumeration of call sequences against a 3-state model + rapid-generated concurrent histories checked for linearizability (porcupine) under the race detector",
-    level_text="All sequences over {Ack,Nack,probe Acked,probe Nacked} up to length 8 (10 thorough) on four kinds of message are enumerated and compared step by step with the first-wins model (complete for that bound). Concurrent histories of 2..16 goroutines are generated, executed under -race with yield padding and varied GOMAXPROCS, and checked for linearizability against the same model; winner agreement and channel state are checked after the join. Interleavings are sampled, not enumerated, so this is exploration.",
+    level_text="All sequences over {Ack,Nack,probe Acked,probe Nacked} up to length 8 (10 thorough) on four kinds of message are enumerated and compared step by step with the first-wins model (complete for that bound). Concurrent histories of 2..16 goroutines are generated, executed under -race with yield padding and varied GOMAXPROCS, and checked for linearizability against the same model; winner agreement and channel state are checked after the join. Interleavings are sampled, not enumerated, so this is exploration. Copies are taken while their original is being settled and must be fresh, unsettled messages; messages with an ended context are a fifth kind; two single-scenario steps pin the first zero-value settlement of a fresh process (Nack first / Ack first).",
     level_note="Trusted: porcupine's checker, the race detector, one atomic counter as real-time order. Zero-value messages are not probed concurrently with Ack/Nack (documented data race by design, outside the property).",
     steps=[
         dict(name="exhaustive", run="^TestExhaustiveSequences$", quick=1, thorough=1),
@@ -55,7 +55,7 @@ CHECKS["C08"] = dict(
 CHECKS["C09"] = dict(
     pkg="c09", race=False, level="exploration", timeout_quick=600, timeout_thorough=3600,
     technique="bounded-exhaustive enumeration of registration programs + rapid-generated programs, exact expected enter/leave trace and decorator tag order as oracle",
-    level_text="Every registration program with up to 5 (quick) / 7 (thorough) middleware registrations over {router-level, handler A, handler B} with the AddHandler calls at every legal position is executed on a real Router and the complete enter/leave trace of each handler is compared with the expected nesting; random programs (up to 20 registrations, 4 handlers, decorator lists up to 5, handler with the empty name) extend this beyond the bound. Complete below the bound, sampled above it.",
+    level_text="Every registration program with up to 5 (quick) / 7 (thorough) middleware registrations over {router-level, handler A, handler B} with the AddHandler calls at every legal position is executed on a real Router and the complete enter/leave trace of each handler is compared with the expected nesting; random programs (up to 20 registrations, 4 handlers, decorator lists up to 5, handler with the empty name) extend this beyond the bound. Complete below the bound, sampled above it. Late registrations: decorators before Run and while running, publishing handlers, a running handler stopped before late ones are added, and every running handler is probed again after each later RunHandlers.",
     level_note="Trusted: the trace recorder middlewares and the expected-order computation in c09_test.go. Registrations after Run are out of scope.",
     steps=[
         dict(name="exhaustive", run="^TestExhaustiveRegistrations$", quick=1, thorough=1),
@@ -95,7 +95,7 @@ CHECKS["C19"] = dict(
 CHECKS["C20"] = dict(
     pkg="c20", race=True, level="exploration", timeout_quick=600, timeout_thorough=3600,
     technique="model-based property testing (rapid) of decorator stacks over scripted Pub/Subs: transparency by pointer identity, delay precedence model, exact Prometheus sample counts from a private registry",
-    level_text="Generated decorator stacks (message transform, delay.Publisher, metrics decorators incl. the same one twice) are driven with generated batches, delay sources, PublisherConfig settings and failure scripts; the inner publisher/subscriber records every call, which is compared with the transparency and delay-precedence model; Prometheus counts are gathered from a private registry and must equal the harness' own counts, stand-alone and in a Router with handler outcomes success/error/panic/publish failure.",
+    level_text="Generated decorator stacks (message transform, delay.Publisher, metrics decorators incl. the same one twice) are driven with generated batches, delay sources, PublisherConfig settings and failure scripts; the inner publisher/subscriber records every call, which is compared with the transparency and delay-precedence model; Prometheus counts are gathered from a private registry and must equal the harness' own counts, stand-alone and in a Router with handler outcomes success/error/panic/publish failure. The handler metrics middleware is also driven with the same message object several times (Retry outside it, or re-delivery of the object): every invocation is counted.",
     level_note="Trusted: scripted Pub/Subs, the precedence model in c20_test.go, prometheus Gather(). Label values other than success/acked are summed over. The handler metrics middleware is installed once.",
     steps=[dict(name="pubstacks", run="^TestPublisherStacks$", quick=1500, thorough=600000, shards_thorough=8),
            dict(name="substacks", run="^TestSubscriberStacks$", quick=300, thorough=80000, shards_thorough=4),
@@ -125,7 +125,7 @@ CHECKS["C17"] = dict(
 CHECKS["C14"] = dict(
     pkg="c14", race=True, level="exploration", timeout_quick=600, timeout_thorough=3600,
     technique="property-based concurrency testing (rapid): goroutines behind a barrier present generated multisets to the Deduplicator, key classes from an independent reference hash; timed retention sequences; hasher laws as a differential",
-    level_text="Generated multisets of messages with payload sizes around the read-limit boundary are presented by up to 32 goroutines at once (several rounds per case, GOMAXPROCS varied) to the middleware and to the publisher decorator; per key class (computed with an independent reference hash) exactly one presentation may pass and all others must be dropped as acked successes. Timed sequences check the lower bound of the retention window and re-acceptance after expiry; the hashers are compared with hash(payload[:min(len,limit)]).",
+    level_text="Generated multisets of messages with payload sizes around the read-limit boundary are presented by up to 32 goroutines at once (several rounds per case, GOMAXPROCS varied) to the middleware and to the publisher decorator; per key class (computed with an independent reference hash) exactly one presentation may pass and all others must be dropped as acked successes. Timed sequences check the lower bound of the retention window and re-acceptance after expiry; the hashers are compared with hash(payload[:min(len,limit)]). Handlers of the concurrency test may fail; the key is presented again right after its re-acceptance; a separate step measures re-acceptance after the repository has been idle for seconds (1.5 x window + 0.6 s, confirmed by a second measurement).",
     level_note="Trusted: the reference hash in c14_test.go, wall-clock used conservatively (retention only asserted for re-presentations that ended inside the window). Interleavings are sampled; the race detector is on.",
     steps=[dict(name="concurrent", run="^TestConcurrentPresentations$", quick=1000, thorough=320000, shards_thorough=40),
            dict(name="laws", run="^TestHasherLaws$", quick=3000, thorough=1000000, shards_thorough=2),
@@ -137,7 +137,7 @@ _GC_NOTE = "Trusted: the history recorder and invariants in harness/gcprog (one 
 CHECKS["C04"] = dict(
     pkg="c04", race=True, level="exploration", timeout_quick=900, timeout_thorough=3600,
     technique="property-based testing of generated concurrent programs (rapid) against a real GoChannel with history invariants; schedule perturbation and forced overlaps through hook points; race detector",
-    level_text="Generated concurrent Publish/Subscribe programs over all configurations run against the real GoChannel; the complete history (every Publish interval, Subscribe interval, receipt with its message object/content/context, settlement) is recorded and checked: delivery to every current subscriber, redelivery grammar, copy separation, context life cycle.",
+    level_text="Generated concurrent Publish/Subscribe programs over all configurations run against the real GoChannel; the complete history (every Publish interval, Subscribe interval, receipt with its message object/content/context, settlement) is recorded and checked: delivery to every current subscriber, redelivery grammar, copy separation, context life cycle. Published messages carry contexts of their own (live or already cancelled). A second test leaves one subscription sitting on an unsettled copy: the other subscriptions must receive everything meanwhile.",
     level_note=_GC_NOTE,
     steps=[dict(name="delivery", run="^TestDelivery$", quick=500, thorough=160000, shards_thorough=14),
            dict(name="holding", run="^TestHoldingSubscriberDoesNotDelayOthers$", quick=300, thorough=60000, shards_thorough=2)],
@@ -145,7 +145,7 @@ CHECKS["C04"] = dict(
 CHECKS["C05"] = dict(
     pkg="c05", race=True, level="exploration", timeout_quick=900, timeout_thorough=3600,
     technique="property-based testing of generated concurrent programs (rapid) against a real GoChannel: hold-window observation of in-flight exclusivity, blocking-Publish/Ack ordering over the recorded history; known finding reproduced separately",
-    level_text="The same program machinery biased to held settlements and blocking mode: the consumer reads its channel while it holds an unsettled message (nothing may arrive), and for blocking mode the history must contain the Ack of every pre-existing subscription before the Publish return stamp, in publish order per publisher; every Publish must return.",
+    level_text="The same program machinery biased to held settlements and blocking mode: the consumer reads its channel while it holds an unsettled message (nothing may arrive), and for blocking mode the history must contain the Ack of every pre-existing subscription before the Publish return stamp, in publish order per publisher; every Publish must return. A third test blocks a Publish on a subscription whose consumer does not read (it may not even have received the message) and releases it by cancelling that subscription or closing the Pub/Sub: Publish must return, nothing is drained before it has.",
     level_note=_GC_NOTE,
     steps=[dict(name="inflight", run="^TestOneInFlightAndBlocking$", quick=500, thorough=160000, shards_thorough=13),
            dict(name="released", run="^TestBlockedPublishReleased$", quick=300, thorough=60000, shards_thorough=2),
@@ -163,7 +163,7 @@ CHECKS["C11"] = dict(
 CHECKS["C07"] = dict(
     pkg="c07", race=True, level="fault_enumeration", timeout_quick=900, timeout_thorough=3600,
     technique="bounded-exhaustive pairwise enumeration (operation parked at a hook point x interleaving operation x consumer state x config x decorator depth) with forced schedules, plus rapid-generated concurrent programs with an early Close; termination/closure/leak oracle; race detector",
-    level_text="The complete table of (configuration, decorator depth, operation A parked at each of its hook points, operation B, consumer state) is enumerated (quick: one eighth chosen by seed; thorough: all entries over 16 shards); in every entry B is invoked while A is parked, then A is released and the Pub/Sub closed. Every call must return, every output channel must close, Publish/Subscribe must fail afterwards and no Pub/Sub goroutine may remain; random programs with a Close landing between generated Publish calls extend this beyond pairs.",
+    level_text="The complete table of (configuration, decorator depth, operation A parked at each of its hook points, operation B, consumer state) is enumerated (quick: one eighth chosen by seed; thorough: all entries over 16 shards); in every entry B is invoked while A is parked, then A is released and the Pub/Sub closed. Every call must return, every output channel must close, Publish/Subscribe must fail afterwards and no Pub/Sub goroutine may remain; random programs with a Close landing between generated Publish calls extend this beyond pairs. The table has a sixth operation (Subscribe with an already cancelled context) and counts the decorator's forwarding goroutines of a cancelled, unread subscription before anything is read; a burst test releases 2..8 Close calls from a spin barrier.",
     level_note="Trusted: the hook controller (park/release), goroutine-dump based leak detection, 10 s liveness bounds re-confirmed by one re-run. Entries whose hook point is not reached run unforced and are counted as such. " + _GC_NOTE,
     steps=[dict(name="table", run="^TestPairwiseTable$", quick=1, thorough=1, shards_thorough=12),
            dict(name="random", run="^TestRandomCloseCancel$", quick=200, thorough=100000, shards_thorough=3),
@@ -173,7 +173,7 @@ CHECKS["C07"] = dict(
 CHECKS["C06"] = dict(
     pkg="c06", race=True, level="exploration", timeout_quick=900, timeout_thorough=3600,
     technique="property-based testing (rapid) of Router shutdown scenarios with forced schedules: the subject message is parked at a generated point of its path (hook points / handler gate / emitted inside the subscriber's Close) while 1..8 callers invoke Close; state sampled synchronously at every Close return and at Run's return",
-    level_text="Generated shutdown scenarios over handler sets, CloseTimeouts, caller counts, path points and release delays run against a real Router with scripted subscribers/publishers (and a GoChannel variant). Handler progress and settlement of every emitted message are sampled in the calling goroutine at the instant each Close call returns, at Run's return and after a 50 ms window, and compared with the graceful-close contract; time-outs must surface as an error in time.",
+    level_text="Generated shutdown scenarios over handler sets, CloseTimeouts, caller counts, path points and release delays run against a real Router with scripted subscribers/publishers (and a GoChannel variant). Handler progress and settlement of every emitted message are sampled in the calling goroutine at the instant each Close call returns, at Run's return and after a 50 ms window, and compared with the graceful-close contract; time-outs must surface as an error in time. Further dimensions: subscriptions that end by themselves while an invocation runs, shutdown started through the Run context, a publisher whose Publish returns only when it is closed, a draining subscriber with a handler far beyond the timeout (Close must return within CloseTimeout+3 s); separate tests for Close while RunHandlers is between two handlers and for Close before Run (a Close that returned nil is held to 'none will start afterwards').",
     level_note="Trusted: the hook controller, synchronous sampling in the caller goroutine, scripted Pub/Subs. The path points are those instrumented; schedules between un-instrumented instructions are reached only by noise. 10 s liveness bounds re-confirmed once.",
     steps=[dict(name="close", run="^TestGracefulClose$", quick=160, thorough=36000, shards_thorough=15),
            dict(name="close-while-starting", run="^(TestCloseWhileStarting|TestCloseBeforeRun)$", quick=100, thorough=20000)],
@@ -182,7 +182,7 @@ CHECKS["C06"] = dict(
 CHECKS["C10"] = dict(
     pkg="c10", race=True, level="exploration", timeout_quick=900, timeout_thorough=3600,
     technique="stateful model-based testing (rapid state machine) of the Router lifecycle API over scripted subscribers, plus a forced schedule parking RunHandlers right after Started() closes; race detector",
-    level_text="rapid drives random lifecycle programs (AddHandler before/after Run, Run, RunHandlers repeated and concurrent, Stop, context cancel, Close, probes) against a real Router and checks a model after every step: subscriptions per handler, Running() vs subscriptions, probe handling, Stop/Stopped usability, Run's return, second Run. The Started()->Stop() window is forced by parking the starter at a hook point.",
+    level_text="rapid drives random lifecycle programs (AddHandler before/after Run, Run, RunHandlers repeated and concurrent, Stop, context cancel, Close, probes) against a real Router and checks a model after every step: subscriptions per handler, Running() vs subscriptions, probe handling, Stop/Stopped usability, Run's return, second Run. The Started()->Stop() window is forced by parking the starter at a hook point. Forced tests: Stop of a started handler must return while RunHandlers is busy with other handlers; Run context cancelled before Run / during start-up; a second Run during start-up; Close before Run followed by Run; a failing Subscribe (Running() closed implies every handler subscribed). The machine also stops handlers twice, lets a publisher fail to Close and requires Stopped() of every started handler once Run has returned.",
     level_note="Trusted: the lifecycle model in c10_test.go, scripted subscribers. Shutting down while a handler added after Run was never started is outside the property (documented need to call RunHandlers).",
     steps=[dict(name="machine", run="^TestLifecycleMachine$", quick=300, thorough=480000, shards_thorough=24),
            dict(name="forced-stop", run="^(TestStopRightAfterStarted|TestStopWithMessageInFlight|TestCloseDuringStartup|TestStartupInterference)$", quick=100, thorough=20000, shards_thorough=4)],
@@ -191,7 +191,7 @@ CHECKS["C10"] = dict(
 CHECKS["C18"] = dict(
     pkg="c18", race=True, level="exploration", timeout_quick=900, timeout_thorough=3600,
     technique="property-based testing (rapid) of concurrent request-reply programs: real command bus/processor/backend over a GoChannel reply topic, commands relayed through a scripted subscriber, reply publisher wrapped to sample settlement; listener termination checked before the caller drains",
-    level_text="Generated programs of 1..32 concurrent callers with handler scripts (failures producing several replies through Nack redelivery), both AckCommandErrors settings, optional time-outs and caller behaviours that stop reading or cancel at different moments run against the real request-reply components; every received reply, every command settlement relative to its reply Publish, the finish hook per request, reply-channel closure and leftover listener goroutines are checked.",
+    level_text="Generated programs of 1..32 concurrent callers with handler scripts (failures producing several replies through Nack redelivery), both AckCommandErrors settings, optional time-outs and caller behaviours that stop reading or cancel at different moments run against the real request-reply components; every received reply, every command settlement relative to its reply Publish, the finish hook per request, reply-channel closure and leftover listener goroutines are checked. Also generated: configurations without the finished-hook, callers with far deadlines, foreign notifications of other result types (a few, or sustained for longer than the timeout), handler errors wrapping context errors, callers that start draining late, a far-away timeout with cancelling callers.",
     level_note="Trusted: the scripted command relay, the reply-publisher wrapper and the goroutine-dump based leak detection. The terminal time-out reply is exempt from the own-command rule.",
     steps=[dict(name="requestreply", run="^TestRequestReply$", quick=150, thorough=90000, shards_thorough=14),
            dict(name="reply-publish-failure", run="^TestReplyPublishFailure$", quick=300, thorough=60000, shards_thorough=2)],
